@@ -44,6 +44,8 @@ type (
 		MaxLength            *int     `json:"maxLength,omitempty" yaml:"maxLength,omitempty"`
 		MinItems             *int     `json:"minItems,omitempty" yaml:"minItems,omitempty"`
 		MaxItems             *int     `json:"maxItems,omitempty" yaml:"maxItems,omitempty"`
+		MinProperties        *int     `json:"minProperties,omitempty" yaml:"minProperties,omitempty"`
+		MaxProperties        *int     `json:"maxProperties,omitempty" yaml:"maxProperties,omitempty"`
 		Required             []string `json:"required,omitempty" yaml:"required,omitempty"`
 		AdditionalProperties any      `json:"additionalProperties,omitempty" yaml:"additionalProperties,omitempty"`
 
@@ -459,6 +461,8 @@ func (s *Schema) Dup() *Schema {
 		MaxLength:            s.MaxLength,
 		MinItems:             s.MinItems,
 		MaxItems:             s.MaxItems,
+		MinProperties:        s.MinProperties,
+		MaxProperties:        s.MaxProperties,
 		Required:             s.Required,
 		AdditionalProperties: s.AdditionalProperties,
 	}
@@ -517,6 +521,8 @@ func initAttributeValidation(s *Schema, at *expr.AttributeExpr) {
 	if val.MinLength != nil {
 		if _, ok := at.Type.(*expr.Array); ok {
 			s.MinItems = val.MinLength
+		} else if _, ok := at.Type.(*expr.Map); ok {
+			s.MinProperties = val.MinLength
 		} else {
 			s.MinLength = val.MinLength
 		}
@@ -524,6 +530,8 @@ func initAttributeValidation(s *Schema, at *expr.AttributeExpr) {
 	if val.MaxLength != nil {
 		if _, ok := at.Type.(*expr.Array); ok {
 			s.MaxItems = val.MaxLength
+		} else if _, ok := at.Type.(*expr.Map); ok {
+			s.MaxProperties = val.MaxLength
 		} else {
 			s.MaxLength = val.MaxLength
 		}
